@@ -683,6 +683,42 @@ def search(res, tier, boost=False):
     if worst_scaling < float('inf'):
         res.notes['smallest_scaling_estim_over_trace'] = worst_scaling
 
+    # the same operator asked again for the matrix of the same elements in another order (latest slab first, reversed,
+    # shuffled - what a script does that sorts its element list): the second matrix is an assembled matrix as well, it is
+    # the first one with rows and columns permuted, and is decided like the first
+    again = [k for k in kept if 10 <= len(k[6]) <= 80 and k[8] and max(aspect(e) for e in k[6]) <= 1e8]
+    rng.shuffle(again)
+    for curve, family, hist, gamma, mesh, SL, elems, A, inq in again[:(3 if tier == 'quick' else 12)]:
+        n = len(elems)
+        for oname in (('latest-slab-first', 'shuffled') if tier == 'quick' else ('latest-slab-first', 'reversed', 'shuffled')):
+            idx = list(range(n))
+            if oname == 'reversed':
+                idx.reverse()
+            elif oname == 'shuffled':
+                rng.shuffle(idx)
+            else:
+                idx.sort(key=lambda i: (-float(elems[i].time_interval[0]), float(elems[i].space_interval[0])))
+            lst = [elems[i] for i in idx]
+            try:
+                with quiet():
+                    A2 = np.array(SL.bilform_matrix(lst, lst, use_mp=False), dtype=float)
+            except Exception as exc:  # noqa: BLE001
+                res.violation('C13:repeated-request-raises:%s:%s' % (curve, family),
+                              dict(curve=curve, family=family, history=hist, order=oname, error=repr(exc)))
+                break
+            res.count(('again', curve, family, oname, repr(hist)), True)
+            lam2 = lam_min_scaled(A2)
+            desc = dict(curve=curve, family=family, history=hist, n=n, order=oname, permutation=idx, lambda_min_eigvalsh=lam2,
+                        lambda_min_first_request=lam_min_scaled(A),
+                        max_abs_difference_to_permuted_first=float(np.max(np.abs(A2 - A[np.ix_(idx, idx)]))),
+                        history_on_operator='bilform_matrix(leaves, leaves) then bilform_matrix(reordered, reordered), use_mp=False')
+            if lam2 < 0.01 - 1e-9:
+                o = run_driver([pd_line(A2)])[0] if n <= 110 else 'undecided'
+                if o.startswith('notpd') or o == 'undecided':
+                    res.violation('C13:not-positive-definite:%s:%s:repeated-request' % (curve, family),
+                                  dict(desc, driver=o, matrix=[[float(v).hex() for v in r] for r in A2]))
+                    break
+
     # h-h/2: the fine matrix assembled by the estimator itself (captured), certified; the value is real and >= 0
     small = [k for k in kept if 3 <= len(k[6]) <= (10 if tier == 'quick' else 18)]
     rng.shuffle(small)
